@@ -302,3 +302,43 @@ VP_HARNESS(h_group_enum)
   for (unsigned i = 0; i < NG1; i++) for (unsigned j = 0; j <= 12; j++) { if (j < 12 && j >= NG2) continue; if ((ci++ % NSLICE) == SLICE && a == i && b == j) group_case(sets[i], j < 12 ? sets[j] : 0); }
   VP_WITNESS_IF(ge_runs >= 1, "a Group insertion of this slice executed");
 }
+
+/* ---- a Group (dont_merge 0/1) on trees whose objects carry memory children: a new Group with the sets of an existing object takes that
+ *      object's memory children; totals, arities and sets must follow ---------------------------------------------------------------------- */
+#ifndef GM_SEED
+#define GM_SEED 1
+#endif
+static unsigned gm_runs, gm_above;
+static void group_mem_case(unsigned long g, int dont_merge)
+{
+  struct hwloc_topology *t = vp_seed_build(GM_SEED, 0);
+  static struct gsnap A, B; A.n = B.n = 0;
+  gsnap_walk(t->levels[0][0], &A, 1);
+  unsigned long long total = t->levels[0][0]->total_memory;
+  hwloc_obj_t r = insert_group(t, g, dont_merge);
+  gm_runs++;
+  /* the seeds' Packages are {0,1} and {2,5}: consistent sets are those that do not cut a Package */
+  int cuts = ((g & 0x03) && (g & 0x03) != 0x03 && (g & ~0x03UL)) || ((g & 0x24) && (g & 0x24) != 0x24 && (g & ~0x24UL));
+  if (cuts) VP_CHECK(r == NULL, "insert_group(mem): a Group that cuts a Package conflicts with the hierarchy -> NULL");
+  else {
+    VP_CHECK(r != NULL && vp_w(r->cpuset) == g, "insert_group(mem): the result is an object whose cpuset is the requested one");
+    if (r && dont_merge && g != 0x27) { VP_CHECK(r->type == HWLOC_OBJ_GROUP, "insert_group(mem): a dont_merge Group inside the machine is inserted as such"); if (g == 0x03 || g == 0x24) gm_above++; }
+    if (r && !dont_merge && (g == 0x03 || g == 0x24)) VP_CHECK(r->type == HWLOC_OBJ_PACKAGE, "insert_group(mem): a mergeable Group equal to a Package is merged into it");
+  }
+  VP_CHECK(t->levels[0][0]->total_memory == total, "insert_group(mem): the machine's total memory is unchanged");
+  vp_wf_check(t, 0);
+  gsnap_walk(t->levels[0][0], &B, 0);
+  for (unsigned i = 0; i < A.n && i < GMAXO; i++) { int found = 0; for (unsigned j = 0; j < B.n && j < GMAXO; j++) if (B.gp[j] == A.gp[i]) { found = 1; VP_CHECK(B.type[j] == A.type[i] && B.c[j] == A.c[i] && B.nd[j] == A.nd[i] && B.ud[j] == A.ud[i], "insert_group(mem): existing objects keep their gp_index, sets and userdata"); }
+    VP_CHECK(found, "insert_group(mem): no existing object is lost"); }
+  if (cuts) VP_CHECK(gsnap_same(&A, &B), "insert_group(mem): a conflicting Group leaves every observable attribute unchanged");
+}
+VP_HARNESS(h_group_mem)
+{
+  static const unsigned long sets[8] = { 0x03, 0x24, 0x01, 0x20, 0x27, 0x07, 0x22, 0x04 };
+  unsigned a = (unsigned) vp_in_range(0, 7), dm = (unsigned) vp_in_range(0, 1), ci = 0;
+  for (unsigned i = 0; i < 8; i++) for (unsigned d = 0; d < 2; d++) if ((ci++ % NSLICE) == SLICE && a == i && dm == d) group_mem_case(sets[i], (int) d);
+  VP_WITNESS_IF(gm_runs >= 1, "a Group insertion of this slice executed");
+#if NSLICE == 4 && (SLICE % 2) == 1      /* the dont_merge runs over the first two sets fall into the odd slices */
+  VP_WITNESS_IF(gm_above >= 1, "a dont_merge Group with the sets of a Package was inserted above it");
+#endif
+}
